@@ -156,9 +156,19 @@ def hyp_case(draw, max_len):
     return {"kind": "user", "seq": seq, "user": nd, "valid": False, "why": "non-dict"}
 
 
-def parts(tier):
+def _parts(tier):
     return [
         Part("enum-table-and-sizes", "enum", check=check, cases=enum_cases, exhaustive=True, shards={"quick": 4, "thorough": 16}),
         Part("hyp-laws-user", "hyp", check=check, strategy=lambda t: hyp_case(60 if t == "quick" else 200),
              examples={"quick": 9600, "thorough": 64000}, shards={"quick": 8, "thorough": 16}),
     ]
+
+
+def parts(tier):
+    ps = _parts(tier)
+    from .. import fuzz
+    if tier == "thorough" and fuzz.available():
+        # the same structured cases, generated coverage-guided: libFuzzer bytes drive the Hypothesis strategy (fuzz_one_input)
+        ps.append(Part("atheris-guided", "custom", check=[p for p in ps if p.name == "hyp-laws-user"][0].check, shards={"quick": 1, "thorough": 8},
+                       run=lambda ctx, t, seed, idx, n: fuzz.hyp_campaign(ctx, "c12", "hyp-laws-user", seed, idx, runs=30000)))
+    return ps
